@@ -1,4 +1,13 @@
 //! Independent reference models used as oracles.  None of these share code with the repository.
+#![allow(dead_code)]
 pub mod multimap;
 pub mod h1_req;
 pub mod h1_resp;
+pub mod byte_channel;
+pub mod route_tree;
+pub mod seg_match;
+pub mod pct_decode;
+pub mod negotiate;
+pub mod ws;
+pub mod multipart_gen;
+pub mod range;
